@@ -119,6 +119,7 @@ structure DState where
   lastEv   : List (Nat × String) := []
   viaTemp  : List Nat := []                  -- referenced through VolumeManager.StoreSector (no fsync before the reference)
   parked   : Option (Nat × Nat × Nat) := none -- a ResizeVolume call stopped after it read the size: volume, target, size read
+  idx      : List (Nat × List Nat) := []      -- volumes whose rows were partly deleted: volume_index of each remaining row, by position
   -- statistics
   hists : Nat := 0
   ops : Nat := 0
@@ -216,11 +217,24 @@ def accountingMonitors (ob : Obs) : List Verdict :=
   let v8 := if ob.su != [occd, rows] then [mono "metrics_eq/storageUsage" s!"usage={ob.su},recount={occd}:{rows}"] else []
   v1 ++ v2 ++ v3 ++ perVol ++ v4 ++ v5 ++ v6 ++ v7 ++ v8
 
+/-- volume_index of the row at position `pos` of volume `v` -/
+def toImpl (idx : List (Nat × List Nat)) (v pos : Nat) : Nat :=
+  match idx.find? (·.1 == v) with
+  | some e => e.2.getD pos 999999
+  | none => pos
+
+/-- position of the row with volume_index `i` -/
+def toPos (idx : List (Nat × List Nat)) (v i : Nat) : Nat :=
+  match idx.find? (·.1 == v) with
+  | some e => (e.2.findIdx? (· == i)).getD 999999
+  | none => i
+
 /-- model vs implementation on the tables -/
-def tableMismatches (s : State) (ob : Obs) : List Verdict :=
+def tableMismatches (idx : List (Nat × List Nat)) (s : State) (ob : Obs) : List Verdict :=
   let iv := sortStrs (ob.vols.map fun v => ":".intercalate (v.map toString))
+  let mocc := sortStrs ((occTriples s).map fun t => tripleStr (t.1, toImpl idx t.1 t.2.1, t.2.2))
   cmp "meta/vols" (showStrList (volsStr s)) (showStrList iv) ++
-  cmp "meta/occ" (showStrList (occStr s)) (showStrList (sortStrs (ob.occ.map tripleStr))) ++
+  cmp "meta/occ" (showStrList mocc) (showStrList (sortStrs (ob.occ.map tripleStr))) ++
   cmp "meta/r1" (showStrList (refStr (s.c1.map fun c => (c.id, c.roots)))) (showStrList (refStr ob.r1)) ++
   cmp "meta/r2" (showStrList (refStr (s.c2.map fun c => (c.id, c.roots)))) (showStrList (refStr ob.r2)) ++
   cmp "meta/tmp" (showStrList (tmpStr (s.temps.map fun t => (t.sec, t.exp)))) (showStrList (tmpStr ob.tmp)) ++
@@ -303,7 +317,7 @@ def conclude (d : DState) (l : Line) (pre : List Verdict) (extra : Obs → List 
   | some ob =>
     let mons := accountingMonitors ob ++ extra ob
     let vs := pre ++ mons
-    let vs := if vs.isEmpty then firstOnly (tableMismatches d.m ob) else vs
+    let vs := if vs.isEmpty then firstOnly (tableMismatches d.idx d.m ob) else vs
     let d := { d with iOcc := ob.occ, iR1 := ob.r1, iR2 := ob.r2, iTmp := ob.tmp, iLost := ob.met.getD 4 0,
                       dead := !vs.isEmpty, ops := d.ops + 1 }
     (d, firstOnly (vs.filter fun v => match v with | .monitor .. => true | _ => false) ++
@@ -353,7 +367,7 @@ def step (d : DState) (l : Line) : DState × List Verdict :=
     let cache := (getNat l.args "cache").getD 0
     let mode := (getStr l.args "mode").getD "meta"
     ({ d with m := init cache, mode := mode, dead := false, iOcc := [], iR1 := [], iR2 := [], iTmp := [], iLost := 0,
-              bufMap := [], acked := [], exempt := [], taint := [], lastEv := [], viaTemp := [], parked := none, hists := d.hists + 1 }, [])
+              bufMap := [], acked := [], exempt := [], taint := [], lastEv := [], viaTemp := [], parked := none, idx := [], hists := d.hists + 1 }, [])
   else if d.dead then (d, [])
   else
   let a := l.args
@@ -399,8 +413,40 @@ def step (d : DState) (l : Line) : DState × List Verdict :=
     match getNat a "v", getNat a "force" with
     | some v, some force =>
       let pre := d
-      let (d, r) := stepM d (.removeVolume v (force == 1))
       let d := { d with lostOps := d.lostOps + 1 }
+      match getNatList o "rows" with
+      | some rows =>
+        -- the removal stopped between two batches (process death, or a StoreSector in the pause): `rows` are the
+        -- volume_index values of the slot rows that are left
+        let cur : List Nat := match d.idx.find? (·.1 == v) with
+          | some e => e.2
+          | none => List.range ((findVol v d.m.vols).map (·.slots.length) |>.getD 0)
+        let gone := (List.range cur.length).filter fun p => !rows.contains (cur.getD p 0)
+        let (d, r1) := stepM d (.removeRows v (force == 1) gone)
+        let d := { d with idx := (v, rows) :: d.idx.filter (·.1 != v) }
+        -- the concurrent StoreSector
+        let (d, sv) := match getStr o "sres", getNat a "store", (getStr o "sloc").bind parseLoc with
+          | some sres, some r, some loc =>
+            if sres == "none" then (d, []) else
+            let locP := loc.map fun (lv, li) => (lv, toPos d.idx lv li)
+            let (s1, b) := newBuf d.m (.dataOf r)
+            let (s2, rr) := reserve s1 0 r b locP
+            let (s3, rr) := match rr with
+              | .placed _ _ => let (s3, rf) := finishD d s2 0 true; (s3, match rf with | .ok => rr | x => x)
+              | _ => (s2, rr)
+            let want := match rr with | .placed _ _ => "placed" | .exist => "exist" | x => resStr x
+            ({ d with m := s3, stores := d.stores + 1 }, cmp "meta/sres" want sres)
+          | _, _, _ => (d, [])
+        -- what RemoveVolume itself answered
+        let (d, rv) := if implRes res == "crash" then (d, match r1 with | .ok | .volumeNotEmpty => [] | x => resVerdict "meta/res" x "ok") else
+          let (d, r2) := stepM d (.removeVolume v (force == 1))
+          (d, resVerdict "meta/res" r2 res)
+        let d := if (findVol v d.m.vols).isNone then { d with idx := d.idx.filter (·.1 != v) } else d
+        let (d, vs) := conclude d l (sv ++ rv) (lostMonitor pre (force == 1))
+        ({ d with exempt := (pre.iOcc.filter (·.1 == v)).map (·.2.2) ++ d.exempt }, vs)
+      | none =>
+      let (d, r) := stepM d (.removeVolume v (force == 1))
+      let d := if (findVol v d.m.vols).isNone then { d with idx := d.idx.filter (·.1 != v) } else d
       let (d, vs) := conclude d l (resVerdict "meta/res" r res) (lostMonitor pre (force == 1))
       ({ d with exempt := (pre.iOcc.filter (·.1 == v)).map (·.2.2) ++ d.exempt }, vs)
     | _, _ => (d, [.badline "rmvol"])
@@ -431,8 +477,9 @@ def step (d : DState) (l : Line) : DState × List Verdict :=
   | "store" =>
     -- Store.StoreSector with a callback that only reports the location (fail=1: returns an error)
     match getNat a "r", getNat a "fail", (getStr o "loc").bind parseLoc with
-    | some r, some fail, some loc =>
+    | some r, some fail, some locI =>
       let pre := d.m
+      let loc := locI.map fun (lv, li) => (lv, toPos d.idx lv li)
       let (s1, b) := newBuf d.m (.dataOf r)
       let (s2, r1) := reserve s1 0 r b loc
       let (s3, r2) := match r1 with
@@ -535,6 +582,16 @@ def step (d : DState) (l : Line) : DState × List Verdict :=
     | some h =>
       let pre := d
       let (op, which) := if l.op == "expire1" then (Op.expire1 h, "v1") else if l.op == "expire2" then (Op.expire2 h, "v2") else (Op.expireTemp h, "temp")
+      if implRes res == "crash" then
+        -- the loop died between two batches: what is left of the reference tables is the oracle
+        match parseObs l.obs with
+        | none => (d, [.badline "observation fields"])
+        | some ob =>
+          let pop := if l.op == "expire1" then Op.expire1Part h ob.r1 else if l.op == "expire2" then Op.expire2Part h ob.r2
+            else Op.expireTempPart h (ob.tmp.map fun (r, e) => Temp.mk r e)
+          let (d, r) := stepM d pop
+          conclude d l (resVerdict "meta/res" r "ok") (lostMonitor pre false)
+      else
       let (d, r) := stepM d op
       conclude d l (resVerdict "meta/res" r res) fun ob => lostMonitor pre false ob ++ reclaimMonitors pre pre.m h [which] ob
     | none => (d, [.badline "expire"])
@@ -543,6 +600,15 @@ def step (d : DState) (l : Line) : DState × List Verdict :=
     conclude { d with acked := [] } l [] (lostMonitor d false)
   | "prune" =>
     let pre := d
+    if implRes res == "crash" || implRes res == "cancelled" then
+      match parseObs l.obs with
+      | none => (d, [.badline "observation fields"])
+      | some ob =>
+        let cleared := (pre.iOcc.filter fun t => !ob.occ.contains t).map fun t => (t.1, toPos d.idx t.1 t.2.1)
+        let (d, r) := stepM d (.prunePart cleared)
+        let d := noteEv d (cleared.filterMap fun c => (pre.iOcc.find? (fun t => t.1 == c.1 && toPos pre.idx t.1 t.2.1 == c.2)).map (·.2.2)) "prune"
+        conclude d l (resVerdict "meta/res" r "ok") fun ob => lostMonitor pre false ob ++ pruneMonitor pre ob
+    else
     let (d, r) := stepM d .prune
     let d := noteEv d (d.iOcc.map (·.2.2)) "prune"
     conclude d l (resVerdict "meta/res" r res) fun ob => lostMonitor pre false ob ++ pruneMonitor pre ob
@@ -569,6 +635,11 @@ def step (d : DState) (l : Line) : DState × List Verdict :=
     match getNat a "v", getNat a "start", parseMoves o "moves", getNat o "migrated", getNat o "failed" with
     | some v, some start, some moves, some nm, some nf =>
       let pre := d
+      if implRes res == "crash" then
+        let (d, r) := stepM d (.migratePart v start moves)
+        let d := { d with migrations := d.migrations + 1, moved := d.moved + nm }
+        conclude d l (match r with | .error _ | .migrated _ _ => [] | x => resVerdict "meta/res" x "interrupted") (lostMonitor pre false)
+      else
       let (d, r) := stepM d (.migrate v start moves)
       let d := { d with migrations := d.migrations + 1, moved := d.moved + nm }
       let rv := match r with
